@@ -27,6 +27,10 @@ class Unsupported(Exception):
     """the real code did something the executor cannot model on this path -> path is inconclusive"""
 
 
+class Infeasible(Exception):
+    """the current path was entered through an `unknown` feasibility answer and is in fact infeasible"""
+
+
 class Cut(Exception):
     """raised by stubs to end a path after the statements of interest"""
 
@@ -114,6 +118,9 @@ class PathCtx:
             t = self.feasible(cond)
             f = self.feasible(z3.Not(cond))
             if not t and not f:
+                if self.unknown_forks:
+                    # an earlier `unknown` fork was explored optimistically and turned out infeasible
+                    raise Infeasible()
                 raise HarnessError('path condition became infeasible at %s' % cond)
             v = True if (t and f) else ('T' if t else 'F')
             self.trace.append(v)
@@ -648,6 +655,7 @@ class SN:
         val = z3.Real('ang_' + nm)
         CTX.angval[nm] = val
         CTX.angdefs[nm] = (cr, v)
+        CTX.defs[str(val)] = [val >= -90 * CTX.K, val <= 90 * CTX.K]
         return SN(val, ({nm: Fraction(1)}, Fraction(0), 1))
 
     def arccos(self):
@@ -671,6 +679,7 @@ class SN:
         val = z3.Real('ang_' + nm)
         CTX.angval[nm] = val
         CTX.angdefs[nm] = (x, y)
+        CTX.defs[str(val)] = [val > -180 * CTX.K, val <= 180 * CTX.K]       # principal value
         return SN(val, ({nm: Fraction(1)}, Fraction(0), 1))
 
     def arctan(self):
@@ -946,6 +955,9 @@ def _run_path(fn, trace):
         out = e.state
     except Unsupported as e:
         status = 'unsupported: %s' % e
+    except Infeasible:
+        status = 'infeasible'
+        c.obligations = []
     return c, out, status
 
 
@@ -963,7 +975,7 @@ def _dfs(fn, start, max_paths, deadline, collect):
         st.queries += c.nq
         st.solver_s += c.solver_s
         st.unknown_forks += c.unknown_forks
-        if status != 'ok':
+        if status not in ('ok', 'infeasible'):
             st.unsupported.append((status, list(c.trace[:c.pos])))
         for i in range(len(tr), len(c.trace)):
             if c.trace[i] is True:
